@@ -13,14 +13,15 @@ def prepare(ctx):
     if rc != 0 or not os.path.exists(plan):
         raise vlib.Inconclusive("plan extraction failed rc=%s\n%s" % (rc, out[-2000:]))
     env = {"PLAN_FILE": plan, "VERSIONS_FILE": os.path.join(vlib.SPEC, "ref", "versions.ref.json")}
-    r = ctx.tlc("Plan", "Plan_mc.cfg", workers=8, env=env, must_pass=False)
+    deep = "" if ctx.quick else "_deep"     # thorough tier: every population for structures with up to 9 optional members
+    r = ctx.tlc("Plan", "Plan_mc%s.cfg" % deep, workers=12, env=env, must_pass=False)
     static = []
     if not r.ok:
         if r.violated:
             static = r.violated
         else:
             raise vlib.Inconclusive("TLC failed on Plan.tla:\n" + r.out[-3000:])
-    g = ctx.tlc("Plan", "Plan_gen.cfg", workers=2, env=env, count=False)
+    g = ctx.tlc("Plan", "Plan_gen%s.cfg" % deep, workers=2, env=env, count=False)
     cases = g.printed("CASE")
     if len(cases) < 5000:
         raise vlib.Inconclusive("too few plan cases: %d" % len(cases))
